@@ -154,7 +154,9 @@ func (c *FnCtx) applyContract(fr *frame, st *State, con *Contract, ca callArgs, 
 	}
 	post := mk(st, pre)
 	for _, en := range con.Ensures {
-		if en.Canary {
+		if en.Canary || mentionsMark(en.Text) {
+			// at(NAME, e) names a program point inside the callee: such a
+			// postcondition is proved of the body but says nothing a caller can use
 			continue
 		}
 		c.assume(st, post.boolOf(en.Expr))
@@ -590,9 +592,13 @@ func (eng *Engine) verifyFunction(fn *ssa.Function, con *Contract, bounded int) 
 		c.assume(st, ec.boolOf(r.Expr))
 	}
 	if pkg != nil {
-		for _, gf := range append(append([]*Clause{}, globalFacts[pkg.Path()]...), con.GlobalFacts...) {
+		for _, gf := range globalFacts[pkg.Path()] {
 			c.assume(st, ec.boolOf(gf.Expr))
 			c.note("assumed about package-level state of %s: %s", pkg.Path(), gf.Text)
+		}
+		for _, gf := range con.GlobalFacts {
+			c.assume(st, ec.boolOf(gf.Expr))
+			c.note("assumed on entry of %s (package-level state or representation invariant; not asked of callers): %s", shortFunc(fn.String()), gf.Text)
 		}
 	}
 	if con.Panics != nil {
@@ -660,4 +666,20 @@ func (eng *Engine) verifyFunction(fn *ssa.Function, con *Contract, bounded int) 
 	cov := &Obligation{Key: shortFunc(fn.String()) + "/cover/return", Kind: "cover", Func: fn.String(), Desc: "some normal return is reachable under the preconditions", Prefix: len(c.script), Goal: not(rst.guard), Cover: true, ctx: c}
 	c.obls = append(c.obls, cov)
 	return c, nil
+}
+
+// mentionsMark reports whether a clause text uses at(NAME, e).
+func mentionsMark(s string) bool {
+	for i := 0; i+3 <= len(s); i++ {
+		if s[i:i+3] == "at(" {
+			if i == 0 {
+				return true
+			}
+			ch := s[i-1]
+			if !(ch == '_' || ch >= 'a' && ch <= 'z' || ch >= 'A' && ch <= 'Z' || ch >= '0' && ch <= '9') {
+				return true
+			}
+		}
+	}
+	return false
 }
